@@ -217,6 +217,10 @@ func (r *Reader) Inspect(validateBlockHash bool) (Stats, error) {
 	if err != nil {
 		return Stats{}, err
 	}
+	if header.Version != 1 {
+		// The payload of a CARv2 must itself be a CARv1; every other reader refuses anything else.
+		return Stats{}, fmt.Errorf("invalid data payload header version; expected 1, got %v", header.Version)
+	}
 	stats.Roots = header.Roots
 	var rootsPresentCount int
 	rootsPresent := make([]bool, len(stats.Roots))
